@@ -4,19 +4,24 @@
    lifetime and notification mode).  No proofs here (CovFacts.v).
 
    Time is absolute virtual-clock time in ticks of 1/8 s; analog values and increments are
-   quarters.  The deferred-function queue is not a state component: the harness (like an
-   event loop that runs to quiescence) drains it after every request, so between two events only
-   the per-object `trig` flags are pending — `Write` is the only event that does not drain.
+   quarters.  The deferred-function queue (core.deferredFns restricted to the COV functions:
+   DetectionAlgorithm._execute and COVDetection.send_initial_notification) IS a state component:
+   `Write`, `SubscribeNow`, `CancelNow`, `ReadNow` do not run it, `StepQ` runs its head, `Drain`
+   all of it; `Subscribe`/`Cancel`/`ReadActive` are the composites Drain; request; Drain and
+   `Advance` drains before time moves (core.run never sleeps with deferred functions pending).
+   Network and IOCB plumbing is run to quiescence by the harness after every event.
 
    code map
      write_obj      object.py:323-363 monitors + detect.py:31-56 DetectionMonitor.property_change
+     write_ev       + `deferred(self.algorithm._execute)` when the write sets _triggered
      inc_filter     cov.py COVIncrementCriteria.present_value_filter
-     send_all       cov.py COVIncrementCriteria/COVDetection.send_cov_notifications(None)
-     exec_obj       detect.py DetectionAlgorithm._execute
+     run_dfn DExec  detect.py DetectionAlgorithm._execute -> COV*Criteria.send_cov_notifications(None); an instance that
+                    was unbound meanwhile has an empty subscription list
+     run_dfn DInit  cov.py COVDetection.send_initial_notification(cov) (fix C16-F4) -> send_cov_notifications(cov)
      trem           cov.py send_cov_notifications "calculate time remaining" / ActiveCOVSubscriptions.ReadProperty
-     do_subscribe   cov.py ChangeOfValueServices.do_SubscribeCOVRequest (+ Subscription.__init__,
-                    renew_subscription, PulseConverterCriteria.add_subscription)
-     do_cancel      same, cancel branch (+ ChangeOfValueServices.cancel_subscription,
+     subscribe_now  cov.py ChangeOfValueServices.do_SubscribeCOVRequest / do_SubscribeCOVPropertyRequest (+ Subscription.__init__,
+                    renew_subscription, PulseConverterCriteria.add_subscription); absent mode = unconfirmed (fix C16-F5)
+     cancel_now     same, cancel branch (+ ChangeOfValueServices.cancel_subscription,
                     COVDetection/PulseConverterCriteria.cancel_subscription, DetectionAlgorithm.unbind)
      fire_item      task.py TaskManager order (time, counter); Subscription.process_task;
                     RecurringFunctionTask(covPeriod*1000, send_cov_notifications) + RecurringTask.install_task
@@ -36,14 +41,20 @@ Record obj := mkObj {
   bound : bool;                (* app.cov_detections has an entry, monitors installed *)
   trig : bool;                 (* DetectionAlgorithm._triggered (an _execute is in the deferred queue) *)
   prev : option Z;             (* COVIncrementCriteria.previous_reported_value *)
-  psched : option (Z * Z) }.   (* cov_period_task scheduled at (time, heap counter) *)
-Definition mkObj0 i k v f c p := mkObj i k v f c p false false None None.
+  psched : option (Z * Z);     (* cov_period_task scheduled at (time, heap counter) *)
+  gen : Z }.                   (* which detection instance this is (a new one per bind) *)
+Definition mkObj0 i k v f c p := mkObj i k v f c p false false None None 0.
 
 (* a Subscription: key (client, process, object), mode, lifetime [s], expiry task (time, counter) *)
-Record sub := mkSub { s_cli : Z; s_proc : Z; s_oid : Z; s_conf : bool; s_life : Z; s_task : option (Z * Z) }.
+Record sub := mkSub { s_cli : Z; s_proc : Z; s_oid : Z; s_conf : bool; s_life : Z; s_task : option (Z * Z);
+                      s_id : Z }.     (* identity of the Subscription object (renewals keep it) *)
 
-Record st := mkSt { now : Z; ctr : Z; objs : list obj; subs : list sub }.
-Definition init (os : list obj) : st := mkSt T0 0 os [].
+(* a deferred COV function: _execute of detection instance g of object o / the initial notification of
+   the Subscription object sid *)
+Inductive dfn := DExec (o g : Z) | DInit (sid : Z).
+
+Record st := mkSt { now : Z; ctr : Z; objs : list obj; subs : list sub; queue : list dfn }.
+Definition init (os : list obj) : st := mkSt T0 0 os [] [].
 
 (* n_at: the instant of emission — not part of the PDU, used by the theorems only *)
 Record ntf := mkNtf { n_cli : Z; n_proc : Z; n_oid : Z; n_conf : bool; n_trem : Z; n_pv : Z; n_fl : Z; n_at : Z }.
@@ -56,18 +67,24 @@ Inductive ev :=
 | Subscribe (c p o : Z) (conf : bool) (life : option Z)
 | Cancel (c p o : Z)
 | Advance (t : Z)
-| ReadActive (c : Z).
+| ReadActive (c : Z)
+| StepQ
+| SubscribeNow (c p o : Z) (conf : bool) (life : option Z)
+| CancelNow (c p o : Z)
+| ReadNow (c : Z).
 
 (* ---- setters *)
 Definition set_val (o : obj) (p : prop) (v : Z) : obj :=
   match p with
-  | PPv => mkObj (oid o) (okind o) v (fl o) (inc o) (period o) (bound o) (trig o) (prev o) (psched o)
-  | PFl => mkObj (oid o) (okind o) (pv o) v (inc o) (period o) (bound o) (trig o) (prev o) (psched o)
-  | PInc => mkObj (oid o) (okind o) (pv o) (fl o) v (period o) (bound o) (trig o) (prev o) (psched o)
+  | PPv => mkObj (oid o) (okind o) v (fl o) (inc o) (period o) (bound o) (trig o) (prev o) (psched o) (gen o)
+  | PFl => mkObj (oid o) (okind o) (pv o) v (inc o) (period o) (bound o) (trig o) (prev o) (psched o) (gen o)
+  | PInc => mkObj (oid o) (okind o) (pv o) (fl o) v (period o) (bound o) (trig o) (prev o) (psched o) (gen o)
   end.
 Definition get_val (o : obj) (p : prop) : Z := match p with PPv => pv o | PFl => fl o | PInc => inc o end.
 Definition set_det (o : obj) (b t : bool) (pr : option Z) (ps : option (Z * Z)) : obj :=
-  mkObj (oid o) (okind o) (pv o) (fl o) (inc o) (period o) b t pr ps.
+  mkObj (oid o) (okind o) (pv o) (fl o) (inc o) (period o) b t pr ps (gen o).
+Definition set_gen (o : obj) (g : Z) : obj :=
+  mkObj (oid o) (okind o) (pv o) (fl o) (inc o) (period o) (bound o) (trig o) (prev o) (psched o) g.
 Definition set_trig (o : obj) (t : bool) := set_det o (bound o) t (prev o) (psched o).
 Definition set_prev (o : obj) (pr : option Z) := set_det o (bound o) (trig o) pr (psched o).
 Definition set_psched (o : obj) (ps : option (Z * Z)) := set_det o (bound o) (trig o) (prev o) ps.
@@ -121,28 +138,54 @@ Definition subs_of (i : Z) (sb : list sub) : list sub := filter (fun s => s_oid 
 Definition report (o : obj) : obj := if reports_prev (okind o) then set_prev o (Some (pv o)) else o.
 Definition send_all (nw : Z) (sb : list sub) (o : obj) : obj * list ntf :=
   (report o, map (mk_ntf nw o) (subs_of (oid o) sb)).
-Definition exec_obj (nw : Z) (sb : list sub) (o : obj) : obj * list ntf :=
-  if trig o then (set_trig (report o) false, map (mk_ntf nw o) (subs_of (oid o) sb)) else (o, []).
-Fixpoint exec_all (nw : Z) (sb : list sub) (os : list obj) : list obj * list ntf :=
-  match os with
-  | [] => ([], [])
-  | o :: r => let '(o', n1) := exec_obj nw sb o in
-              let '(r', n2) := exec_all nw sb r in (o' :: r', n1 ++ n2)
-  end.
-Definition drain (s : st) : st * list ntf :=
-  let '(os, ns) := exec_all (now s) (subs s) (objs s) in (mkSt (now s) (ctr s) os (subs s), ns).
+Definition set_objs (s : st) (os : list obj) : st := mkSt (now s) (ctr s) os (subs s) (queue s).
+Definition set_queue (s : st) (q : list dfn) : st := mkSt (now s) (ctr s) (objs s) (subs s) q.
 
 (* ---- subscription table *)
 Definition key_eqb (c p o : Z) (s : sub) : bool := (s_cli s =? c) && (s_proc s =? p) && (s_oid s =? o).
 Definition find_sub (c p o : Z) (sb : list sub) : option sub := find (key_eqb c p o) sb.
+Definition find_id (i : Z) (sb : list sub) : option sub := find (fun x => s_id x =? i) sb.
 Definition remove_sub (c p o : Z) (sb : list sub) : list sub := filter (fun s => negb (key_eqb c p o s)) sb.
 Definition find_obj (i : Z) (os : list obj) : option obj := find (fun o => oid o =? i) os.
 Definition upd_obj (i : Z) (f : obj -> obj) (os : list obj) : list obj :=
   map (fun o => if oid o =? i then f o else o) os.
 
-Definition bind_obj (o : obj) : obj := if bound o then o else set_det o true false None None.
+(* a fresh detection instance per bind: deferred _execute calls of an older instance find nobody *)
+Definition bind_obj (o : obj) : obj := if bound o then o else set_gen (set_det o true false None None) (gen o + 1).
 Definition unbind_obj (o : obj) : obj := set_det o false false None None.
 Definition next_mult (nw p8 : Z) : Z := nw + p8 - nw mod p8.
+
+(* ---- the deferred functions *)
+(* DetectionAlgorithm._execute of instance g: execute() = send_cov_notifications(), then _triggered = False;
+   an instance that has been unbound meanwhile has no subscriptions left and reaches nobody *)
+Definition run_dfn (s : st) (d : dfn) : st * list ntf :=
+  match d with
+  | DExec o g =>
+      match find_obj o (objs s) with
+      | Some ob => if bound ob && (gen ob =? g)
+                   then (set_objs s (upd_obj o (fun _ => set_trig (report ob) false) (objs s)),
+                         map (mk_ntf (now s) ob) (subs_of o (subs s)))
+                   else (s, [])
+      | None => (s, [])
+      end
+  | DInit i =>      (* COVDetection.send_initial_notification(cov): only if cov is still in the list *)
+      match find_id i (subs s) with
+      | Some x => match find_obj (s_oid x) (objs s) with
+                  | Some ob => (set_objs s (upd_obj (s_oid x) (fun _ => report ob) (objs s)), [mk_ntf (now s) ob x])
+                  | None => (s, [])
+                  end
+      | None => (s, [])
+      end
+  end.
+
+Fixpoint run_queue (q : list dfn) (s : st) : st * list ntf :=
+  match q with
+  | [] => (s, [])
+  | d :: r => let '(s1, n1) := run_dfn s d in
+              let '(s2, n2) := run_queue r s1 in (s2, n1 ++ n2)
+  end.
+(* no deferred COV function defers another one, so draining is one pass over the queue *)
+Definition drain (s : st) : st * list ntf := run_queue (queue s) (set_queue s []).
 
 Definition ack_out (tag : Z) (ns : list ntf) : out := mkOut tag 1 0 ns None.
 Definition err_out (tag code : Z) (ns : list ntf) : out := mkOut tag 2 code ns None.
@@ -153,53 +196,56 @@ Definition drop_sub (s : st) (c p o : Z) : st :=
   let os := match subs_of o sb with
             | [] => upd_obj o unbind_obj (objs s)
             | _ => objs s end in
-  mkSt (now s) (ctr s) os sb.
+  mkSt (now s) (ctr s) os sb (queue s).
 
-Definition do_subscribe (s : st) (c p o : Z) (conf : bool) (life : option Z) (pre : list ntf) : st * out :=
+(* do_SubscribeCOVRequest, subscribe / renew branch: table update, ack, deferred initial notification *)
+Definition subscribe_now (s : st) (c p o : Z) (conf : bool) (life : option Z) : st * bool * Z :=
   match find_obj o (objs s) with
-  | None => (s, err_out 3 31 pre)
+  | None => (s, false, 31)
   | Some ob =>
     match okind ob with
-    | KNoCov => (s, err_out 3 43 pre)
+    | KNoCov => (s, false, 43)
     | _ =>
       let lf := match life with None => 0 | Some l => l end in
       let ob1 := bind_obj ob in
       match find_sub c p o (subs s) with
-      | Some _ =>          (* renew_subscription(lifetime, confirmed) *)
+      | Some y =>          (* renew_subscription(lifetime, confirmed) on the same Subscription object *)
           let task := if lf =? 0 then None else Some (now s + lf * TICKS, ctr s) in
           let c1 := if lf =? 0 then ctr s else ctr s + 1 in
-          let nsub := mkSub c p o conf lf task in
+          let nsub := mkSub c p o conf lf task (s_id y) in
           let sb := map (fun x => if key_eqb c p o x then nsub else x) (subs s) in
-          let ob2 := report ob1 in
-          (mkSt (now s) c1 (upd_obj o (fun _ => ob2) (objs s)) sb, ack_out 3 (pre ++ [mk_ntf (now s) ob1 nsub]))
+          (mkSt (now s) c1 (upd_obj o (fun _ => ob1) (objs s)) sb (queue s ++ [DInit (s_id y)]), true, 0)
       | None =>
-          let task := if 0 <? lf then Some (now s + lf * TICKS, ctr s) else None in
-          let c1 := if 0 <? lf then ctr s + 1 else ctr s in
-          let nsub := mkSub c p o conf lf task in
+          let i := ctr s in
+          let c0 := ctr s + 1 in
+          let task := if 0 <? lf then Some (now s + lf * TICKS, c0) else None in
+          let c1 := if 0 <? lf then c0 + 1 else c0 in
+          let nsub := mkSub c p o conf lf task i in
           let per := match okind ob with KPulse => negb (period ob =? 0) | _ => false end in
           let ob2 := if per then set_psched ob1 (Some (next_mult (now s) (period ob * TICKS), c1)) else ob1 in
           let c2 := if per then c1 + 1 else c1 in
-          let ob3 := report ob2 in
-          (mkSt (now s) c2 (upd_obj o (fun _ => ob3) (objs s)) (subs s ++ [nsub]),
-           ack_out 3 (pre ++ [mk_ntf (now s) ob1 nsub]))
+          (mkSt (now s) c2 (upd_obj o (fun _ => ob2) (objs s)) (subs s ++ [nsub]) (queue s ++ [DInit i]), true, 0)
       end
     end
   end.
 
-Definition do_cancel (s : st) (c p o : Z) (pre : list ntf) : st * out :=
+Definition cancel_now (s : st) (c p o : Z) : st * bool * Z :=
   match find_obj o (objs s) with
-  | None => (s, err_out 4 31 pre)
+  | None => (s, false, 31)
   | Some ob =>
     match okind ob with
-    | KNoCov => (s, err_out 4 43 pre)
+    | KNoCov => (s, false, 43)
     | _ =>
-      let s1 := mkSt (now s) (ctr s) (upd_obj o bind_obj (objs s)) (subs s) in
+      let s1 := set_objs s (upd_obj o bind_obj (objs s)) in
       match find_sub c p o (subs s) with
-      | Some _ => (drop_sub s1 c p o, ack_out 4 pre)
-      | None => (s1, ack_out 4 pre)
+      | Some _ => (drop_sub s1 c p o, true, 0)
+      | None => (s1, true, 0)
       end
     end
   end.
+
+Definition req_out (tag : Z) (ok : bool) (code : Z) (ns : list ntf) : out :=
+  if ok then ack_out tag ns else err_out tag code ns.
 
 (* ---- timers *)
 Inductive item := ISub (c p o : Z) | IPer (o : Z).
@@ -235,7 +281,7 @@ Definition fire_item (s : st) (it : Z * item) : st * list ntf :=
           if task_eqb (psched ob) (now s) k then
             let '(ob1, ns) := send_all (now s) (subs s) ob in
             let ob2 := set_psched ob1 (Some (next_mult (now s) (period ob * TICKS), ctr s)) in
-            (mkSt (now s) (ctr s + 1) (upd_obj o (fun _ => ob2) (objs s)) (subs s), ns)
+            (mkSt (now s) (ctr s + 1) (upd_obj o (fun _ => ob2) (objs s)) (subs s) (queue s), ns)
           else (s, [])
       | None => (s, [])
       end
@@ -249,7 +295,7 @@ Fixpoint fire_items (its : list (Z * item)) (s : st) : st * list ntf :=
   end.
 
 Definition tick (s : st) : st * list ntf :=
-  let s1 := mkSt (now s + 1) (ctr s) (objs s) (subs s) in
+  let s1 := mkSt (now s + 1) (ctr s) (objs s) (subs s) (queue s) in
   fire_items (sort_by (fun a b => fst a <=? fst b) (due_items s1)) s1.
 
 Fixpoint ticks (n : nat) (s : st) : st * list ntf :=
@@ -268,18 +314,36 @@ Definition mk_act (nw : Z) (os : list obj) (s : sub) : act :=
 Definition read_active (s : st) : list act := map (mk_act (now s) (objs s)) (subs s).
 
 (* ---- one event *)
+Definition write_ev (s : st) (i : nat) (p : prop) (v : Z) : st * out :=
+  match nth_error (objs s) i with
+  | None => (s, mkOut 1 9 10 [] None)
+  | Some o => if has_prop (okind o) p
+              then let o' := write_obj o p v in
+                   (* deferred(self.algorithm._execute) when the write sets _triggered *)
+                   let q := if negb (trig o) && trig o' then queue s ++ [DExec (oid o) (gen o)] else queue s in
+                   (mkSt (now s) (ctr s) (upd_nth i (fun x => write_obj x p v) (objs s)) (subs s) q, mkOut 1 0 0 [] None)
+              else (s, mkOut 1 9 11 [] None)
+  end.
+
 Definition step (s : st) (e : ev) : st * out :=
   match e with
-  | Write i p v =>
-      match nth_error (objs s) i with
-      | None => (s, mkOut 1 9 10 [] None)
-      | Some o => if has_prop (okind o) p
-                  then (mkSt (now s) (ctr s) (upd_nth i (fun o => write_obj o p v) (objs s)) (subs s), mkOut 1 0 0 [] None)
-                  else (s, mkOut 1 9 11 [] None)
-      end
+  | Write i p v => write_ev s i p v
+  | StepQ => match queue s with
+             | [] => (s, mkOut 7 0 0 [] None)
+             | d :: r => let '(s1, ns) := run_dfn (set_queue s r) d in (s1, mkOut 7 0 0 ns None)
+             end
   | Drain => let '(s1, ns) := drain s in (s1, mkOut 2 0 0 ns None)
-  | Subscribe c p o conf life => let '(s1, ns) := drain s in do_subscribe s1 c p o conf life ns
-  | Cancel c p o => let '(s1, ns) := drain s in do_cancel s1 c p o ns
+  | SubscribeNow c p o conf life => let '(s1, ok, code) := subscribe_now s c p o conf life in (s1, req_out 8 ok code [])
+  | CancelNow c p o => let '(s1, ok, code) := cancel_now s c p o in (s1, req_out 9 ok code [])
+  | ReadNow c => (s, mkOut 10 1 0 [] (Some (read_active s)))
+  | Subscribe c p o conf life =>
+      let '(s1, n1) := drain s in
+      let '(s2, ok, code) := subscribe_now s1 c p o conf life in
+      let '(s3, n3) := drain s2 in (s3, req_out 3 ok code (n1 ++ n3))
+  | Cancel c p o =>
+      let '(s1, n1) := drain s in
+      let '(s2, ok, code) := cancel_now s1 c p o in
+      let '(s3, n3) := drain s2 in (s3, req_out 4 ok code (n1 ++ n3))
   | Advance t => let '(s1, n1) := drain s in
                  let '(s2, n2) := ticks (Z.to_nat t) s1 in (s2, mkOut 5 0 0 (n1 ++ n2) None)
   | ReadActive c => let '(s1, ns) := drain s in (s1, mkOut 6 1 0 ns (Some (read_active s1)))
